@@ -61,6 +61,16 @@ def family(name, perm=None, irf="none", mc_order=None, ds_order=None):
         md["initial_concentration"] = {"j1": {"compartments": c_order, "parameters": [f"j.{c}" for c in c_order]}}
         md["megacomplex"]["m1"] = {"type": "decay", "k_matrix": ["km1"]}
         md["dataset"]["d1"].update({"megacomplex": ["m1"], "initial_concentration": "j1"})
+    elif name == "decay2":
+        # two general decay megacomplexes sharing one initial concentration whose compartments may be interleaved
+        comps = ["s1", "s2", "s3", "s4"]
+        vals.update({"k.1": 1.1, "k.2": 0.2, "k.3": 0.6, "k.4": 0.05, "j.s1": 0.5, "j.s2": 0.1, "j.s3": 0.3, "j.s4": 0.1})
+        md["k_matrix"] = {"kmA": {"matrix": {"s2<-s1": "k.1", "s2<-s2": "k.2"}}, "kmB": {"matrix": {"s4<-s3": "k.3", "s4<-s4": "k.4"}}}
+        c_order = p(comps)
+        md["initial_concentration"] = {"j1": {"compartments": c_order, "parameters": [f"j.{c}" for c in c_order]}}
+        md["megacomplex"]["mA"] = {"type": "decay", "k_matrix": ["kmA"]}
+        md["megacomplex"]["mB"] = {"type": "decay", "k_matrix": ["kmB"]}
+        md["dataset"]["d1"].update({"megacomplex": ["mA", "mB"], "initial_concentration": "j1"})
     elif name in ("oscillation", "pfid"):
         labs = ["o1", "o2", "o3"]
         f = {"o1": 25.0, "o2": 60.0, "o3": 140.0} if name == "oscillation" else {"o1": 610.0, "o2": 640.0, "o3": 700.0}
@@ -239,7 +249,7 @@ def run(run: core.Run):
     quick = run.tier == "quick"
     perms = []
     for fam, n, irfs in (("parallel", 3, ("none", "plain", "dispersed")), ("parallel", 4, ("none", "dispersed")),
-                         ("decay", 3, ("none", "dispersed")), ("decay", 5, ("none",)),
+                         ("decay", 3, ("none", "dispersed")), ("decay", 5, ("none",)), ("decay2", 4, ("none", "plain")),
                          ("oscillation", 3, ("none", "plain", "dispersed")), ("pfid", 3, ("dispersed",)), ("spectral", 3, ("none",))):  # fmt: skip
         for irf in irfs:
             all_p = list(itertools.permutations(range(n)))[1:]
